@@ -63,6 +63,15 @@ def gen_cases(tier, seed):
         if wt == "int" and rng.random() < 0.12:
             # integral flows given as float objects while int weights are requested
             base["flow"] = {e: float(f) for e, f in base["flow"].items()}
+        elif wt == "int" and not node and base["planted"] and rng.random() < 0.08:
+            # int weights requested for a flow with half-integral values: 0.5 is added along one planted route, so the values stay a conserved
+            # flow and their integer parts are one too. No integer-weighted decomposition explains it exactly: a model that reports solved
+            # (e.g. because it truncated the values) is caught by the exact comparison below
+            route = base["planted"][rng.randrange(len(base["planted"]))][0]
+            seen_ = set()
+            for e in zip(route, route[1:]):
+                if e not in seen_:
+                    seen_.add(e); base["flow"][e] = base["flow"][e] + 0.5 * list(zip(route, route[1:])).count(e)
         elif wt == "float" and rng.random() < 0.3:
             # the converse: flow values given as Python ints while float weights (the documented default type) are requested
             if cyc:
